@@ -63,6 +63,9 @@ type Factory struct {
 	next  int
 	vars  []*Term
 	varBy map[string]*Term
+	ub    map[*Term]uint64 // unsigned upper bounds asserted on the current path
+	nonneg map[*Term]bool
+	pendUB map[*Term]uint64
 }
 
 func NewFactory() *Factory {
@@ -385,6 +388,10 @@ func (f *Factory) bin(op string, a, b *Term) *Term {
 	}
 	// algebraic identities
 	switch op {
+	case "bvudiv", "bvurem", "bvsdiv", "bvsrem":
+		if r := f.divRewrite(op, a, b); r != nil {
+			return r
+		}
 	case "bvadd":
 		if a.konst && a.cv == 0 {
 			return b
@@ -392,12 +399,28 @@ func (f *Factory) bin(op string, a, b *Term) *Term {
 		if b.konst && b.cv == 0 {
 			return a
 		}
+		// (x + k1) + k2 -> x + (k1+k2)
+		if a.konst {
+			a, b = b, a
+		}
+		if b.konst && a.op == "bvadd" {
+			if a.args[0].konst {
+				return f.bin("bvadd", a.args[1], f.Const(w, a.args[0].cv+b.cv))
+			}
+			if a.args[1].konst {
+				return f.bin("bvadd", a.args[0], f.Const(w, a.args[1].cv+b.cv))
+			}
+		}
 	case "bvsub":
 		if b.konst && b.cv == 0 {
 			return a
 		}
 		if a == b {
 			return f.Const(w, 0)
+		}
+		// x - k -> x + (-k)
+		if b.konst {
+			return f.bin("bvadd", a, f.Const(w, -b.cv))
 		}
 	case "bvmul":
 		if a.konst && a.cv == 1 {
@@ -421,6 +444,17 @@ func (f *Factory) bin(op string, a, b *Term) *Term {
 		}
 		if a == b {
 			return a
+		}
+		// x & (2^k-1) == x when x provably fits
+		if b.konst && b.cv&(b.cv+1) == 0 {
+			if _, h, ok := f.urange(a); ok && h <= b.cv {
+				return a
+			}
+		}
+		if a.konst && a.cv&(a.cv+1) == 0 {
+			if _, h, ok := f.urange(b); ok && h <= a.cv {
+				return b
+			}
 		}
 	case "bvor":
 		if a.konst && a.cv == 0 {
@@ -580,6 +614,12 @@ func (f *Factory) ZExt(a *Term, w int) *Term {
 	if a.op == "zext" {
 		return f.ZExt(a.args[0], w)
 	}
+	// zext(extract[k:0](X)) == X when X provably fits in k+1 bits
+	if a.op == "extract" && a.p2 == 0 && a.args[0].sort.W == w {
+		if _, h, ok := f.urange(a.args[0]); ok && h <= mask(a.sort.W) {
+			return a.args[0]
+		}
+	}
 	return f.mk("zext", BV(w), w-a.sort.W, 0, a)
 }
 
@@ -595,6 +635,14 @@ func (f *Factory) SExt(a *Term, w int) *Term {
 	}
 	if a.op == "zext" {
 		return f.ZExt(a.args[0], w)
+	}
+	if a.op == "extract" && a.p2 == 0 && a.args[0].sort.W == w {
+		if _, h, ok := f.urange(a.args[0]); ok && h < uint64(1)<<uint(a.sort.W-1) {
+			return a.args[0]
+		}
+	}
+	if _, h, ok := f.urange(a); ok && h < uint64(1)<<uint(a.sort.W-1) {
+		return f.ZExt(a, w)
 	}
 	return f.mk("sext", BV(w), w-a.sort.W, 0, a)
 }
@@ -828,3 +876,244 @@ func maxInt(a, b int) int {
 }
 
 var _ = bits.Len
+
+// ---- interval-assisted rewriting
+//
+// urange computes an unsigned interval for t that is valid on the current path:
+// it uses only the syntactic shape of t and upper bounds recorded from
+// constraints already asserted on this path (NoteAsserted). All arithmetic is
+// checked for wrap-around; ok=false means "no information".
+
+func (f *Factory) NoteAsserted(c *Term) {
+	if f.ub == nil {
+		f.ub = map[*Term]uint64{}
+	}
+	switch c.op {
+	case "and":
+		f.NoteAsserted(c.args[0])
+		f.NoteAsserted(c.args[1])
+		f.NoteAsserted(c.args[0]) // lower bounds may be recorded by the second conjunct
+	case "bvsle", "bvslt":
+		// signed facts: k <= t with k >= 0 makes t non-negative; then t <= k2 is an unsigned bound
+		if f.nonneg == nil {
+			f.nonneg = map[*Term]bool{}
+		}
+		a, b := c.args[0], c.args[1]
+		w := a.sort.W
+		if a.konst && !b.konst && sext(a.cv, w) >= 0 {
+			f.nonneg[b] = true
+			if hi, ok := f.pendUB[b]; ok {
+				f.noteUB(b, hi)
+			}
+		}
+		if b.konst && !a.konst && sext(b.cv, w) >= 0 {
+			hi := b.cv
+			if c.op == "bvslt" {
+				if hi == 0 {
+					return
+				}
+				hi--
+			}
+			if f.nonneg[a] {
+				f.noteUB(a, hi)
+			} else {
+				if f.pendUB == nil {
+					f.pendUB = map[*Term]uint64{}
+				}
+				f.pendUB[a] = hi
+			}
+		}
+	case "bvult":
+		if c.args[1].konst && !c.args[0].konst && c.args[1].cv > 0 {
+			f.noteUB(c.args[0], c.args[1].cv-1)
+		}
+	case "bvule":
+		if c.args[1].konst && !c.args[0].konst {
+			f.noteUB(c.args[0], c.args[1].cv)
+		}
+	case "not":
+		in := c.args[0]
+		// not(k < x)  ==  x <= k ; not(k <= x) == x < k
+		if in.op == "bvult" && in.args[0].konst && !in.args[1].konst {
+			f.noteUB(in.args[1], in.args[0].cv)
+		}
+		if in.op == "bvule" && in.args[0].konst && !in.args[1].konst && in.args[0].cv > 0 {
+			f.noteUB(in.args[1], in.args[0].cv-1)
+		}
+	case "=":
+		if c.args[1].konst && c.args[1].sort.K == SBV {
+			f.noteUB(c.args[0], c.args[1].cv)
+		} else if c.args[0].konst && c.args[0].sort.K == SBV {
+			f.noteUB(c.args[1], c.args[0].cv)
+		}
+	}
+}
+
+func (f *Factory) noteUB(t *Term, hi uint64) {
+	if old, ok := f.ub[t]; !ok || hi < old {
+		f.ub[t] = hi
+	}
+}
+
+func (f *Factory) urange(t *Term) (lo, hi uint64, ok bool) {
+	if t.sort.K != SBV {
+		return 0, 0, false
+	}
+	w := t.sort.W
+	if t.konst {
+		return t.cv, t.cv, true
+	}
+	lo, hi, ok = f.urange0(t)
+	if !ok {
+		lo, hi, ok = 0, mask(w), true
+	}
+	if b, has := f.ub[t]; has && b < hi {
+		hi = b
+		if lo > hi {
+			lo = hi
+		}
+	}
+	return
+}
+
+func (f *Factory) urange0(t *Term) (lo, hi uint64, ok bool) {
+	w := t.sort.W
+	switch t.op {
+	case "zext":
+		return f.urange(t.args[0])
+	case "sext":
+		l, h, k := f.urange(t.args[0])
+		iw := t.args[0].sort.W
+		if k && h < uint64(1)<<uint(iw-1) {
+			return l, h, true
+		}
+	case "extract":
+		if t.p2 == 0 {
+			l, h, k := f.urange(t.args[0])
+			if k && h <= mask(w) {
+				return l, h, true
+			}
+		}
+	case "bvadd":
+		l1, h1, k1 := f.urange(t.args[0])
+		l2, h2, k2 := f.urange(t.args[1])
+		if k1 && k2 {
+			s, c := bits.Add64(h1, h2, 0)
+			if c == 0 && s <= mask(w) {
+				return l1 + l2, s, true
+			}
+		}
+	case "bvmul":
+		l1, h1, k1 := f.urange(t.args[0])
+		l2, h2, k2 := f.urange(t.args[1])
+		if k1 && k2 {
+			hh, ll := bits.Mul64(h1, h2)
+			if hh == 0 && ll <= mask(w) {
+				return l1 * l2, ll, true
+			}
+		}
+	case "bvand":
+		_, h1, k1 := f.urange(t.args[0])
+		_, h2, k2 := f.urange(t.args[1])
+		if k1 && k2 {
+			if h2 < h1 {
+				h1 = h2
+			}
+			return 0, h1, true
+		}
+	case "bvudiv":
+		l1, h1, k1 := f.urange(t.args[0])
+		if k1 && t.args[1].konst && t.args[1].cv != 0 {
+			return l1 / t.args[1].cv, h1 / t.args[1].cv, true
+		}
+	case "bvurem":
+		if t.args[1].konst && t.args[1].cv != 0 {
+			return 0, t.args[1].cv - 1, true
+		}
+	case "bvlshr":
+		l1, h1, k1 := f.urange(t.args[0])
+		if k1 && t.args[1].konst && t.args[1].cv < 64 {
+			return l1 >> t.args[1].cv, h1 >> t.args[1].cv, true
+		}
+	case "ite":
+		l1, h1, k1 := f.urange(t.args[1])
+		l2, h2, k2 := f.urange(t.args[2])
+		if k1 && k2 {
+			if l2 < l1 {
+				l1 = l2
+			}
+			if h2 > h1 {
+				h1 = h2
+			}
+			return l1, h1, true
+		}
+	}
+	return 0, 0, false
+}
+
+// divRewrite simplifies a div/rem by a positive constant using intervals.
+// It returns nil when no rule applies.
+func (f *Factory) divRewrite(op string, a, b *Term) *Term {
+	if !b.konst || b.cv == 0 {
+		return nil
+	}
+	w := a.sort.W
+	c := b.cv
+	signed := op == "bvsdiv" || op == "bvsrem"
+	if signed && c >= uint64(1)<<uint(w-1) {
+		return nil // negative divisor
+	}
+	lo, hi, ok := f.urange(a)
+	_ = lo
+	if !ok {
+		return nil
+	}
+	if signed && hi >= uint64(1)<<uint(w-1) {
+		return nil // may be negative
+	}
+	isDiv := op == "bvsdiv" || op == "bvudiv"
+	if hi < c {
+		if isDiv {
+			return f.Const(w, 0)
+		}
+		return a
+	}
+	// a = x*c  (no wrap, established by urange succeeding on a through bvmul)
+	mulOf := func(t *Term) *Term {
+		if t.op != "bvmul" {
+			return nil
+		}
+		if _, _, k := f.urange0(t); !k {
+			return nil
+		}
+		if t.args[0].konst && t.args[0].cv == c {
+			return t.args[1]
+		}
+		if t.args[1].konst && t.args[1].cv == c {
+			return t.args[0]
+		}
+		return nil
+	}
+	if x := mulOf(a); x != nil {
+		if isDiv {
+			return x
+		}
+		return f.Const(w, 0)
+	}
+	if a.op == "bvadd" {
+		if _, _, k := f.urange0(a); k {
+			for i := 0; i < 2; i++ {
+				if x := mulOf(a.args[i]); x != nil {
+					r := a.args[1-i]
+					if _, rh, rk := f.urange(r); rk && rh < c {
+						if isDiv {
+							return x
+						}
+						return r
+					}
+				}
+			}
+		}
+	}
+	return nil
+}
